@@ -315,7 +315,20 @@ def simulate(cfg: dict, root: str, draw: dict, schedule: typing.Optional[list] =
     for i, iface in enumerate(ifaces):
         banks.append({str(ref) if isinstance(ref, str) else repr(ref): f'{cls.__module__}:{cls.__qualname__}'
                       for ref, cls in provider.BANK[iface].provider.items()})
-    return {'outcomes': outcomes, 'status': status, 'loaded': loaded, 'banks': banks, 'steps': kernel.step,
+    # registration is all or nothing: a provider is registered with every bank up its line (its own, those of the
+    # abstract intermediates, the interface's) or - when it was refused for a collision in any of them - with none
+    ghosts = []
+    for owner, bank in list(provider.BANK.items()):
+        if not getattr(owner, '__module__', '').startswith(PKG):
+            continue
+        for ref, cls in list(bank.provider.items()):
+            line = [p for p in cls.__mro__ if issubclass(p, provider.Service) and p is not provider.Service]
+            lacking = [f'{p.__module__}:{p.__qualname__}' for p in line
+                       if provider.BANK[p].provider.get(provider.Reference(cls)) is not cls]
+            if lacking:
+                ghosts.append([f'{owner.__module__}:{owner.__qualname__}', str(ref) if isinstance(ref, str) else repr(ref),
+                               f'{cls.__module__}:{cls.__qualname__}', lacking])
+    return {'outcomes': outcomes, 'status': status, 'loaded': loaded, 'banks': banks, 'ghosts': sorted(ghosts), 'steps': kernel.step,
             'switches': kernel.switches, 'stats': dict(kernel.stats), 'digest': kernel.digest(),
             'decisions': kernel.decisions,
             'path_orders': [[p.value for p in provider.BANK[iface].paths] for iface in ifaces]}
@@ -467,6 +480,10 @@ def judge(cfg: dict, result: dict, draw_index: int) -> list[dict]:
                         'detail': f'draw {draw_index}: {sorted(idents)} all register {ref!r} for '
                                   f'{universe["ifaces"][iface]["name"]} and all their modules ended up imported without '
                                   f'a collision error (bank: {result["banks"][iface].get(ref)})'})
+    for owner, ref, ident, lacking in result.get('ghosts', []):
+        out.append({'class': 'refused-provider-resolvable',
+                    'detail': f'draw {draw_index}: {owner}[{ref!r}] resolves to {ident}, which is not registered with '
+                              f'{lacking}: its registration was refused there (collision) after it had been accepted here'})
     # what the bank holds must be what the universe says
     for iface, bank in enumerate(result['banks']):
         for ref, ident in bank.items():
